@@ -32,6 +32,7 @@ def constants(tier):
         "AllowFault": True,
         "AllowStop": True,
         "AllowNatural": True,
+        "AllowPreEdit": True,
     }
     c.update(FIXED_CONSTANTS)
     return c
@@ -47,12 +48,16 @@ HIST_FILE = "h_hist.txt"
 def rpath(p):
     """abstract path (list of names) -> project-relative path"""
     s = "/".join(p)
+    if RICH and p == ["x"]:
+        return "x\udce9.py"     # bytes x\xe9.py on disk: legal on Linux, a lone surrogate in the str path
     if p[-1] in ("x", "y"):
         s += ".py"
+    elif p[-1] == "k":
+        s += ".bak"      # matched by ignored_resources=["*.bak"] in the C11 configuration that uses it
     return s
 
 
-RICH = False   # C12 switches this on: unicode, multi-line contents
+RICH = False   # C12 switches this on: unicode, multi-line contents, a file name that is not valid UTF-8
 
 
 def content(c):
@@ -82,8 +87,12 @@ def abstract_tree(root):
         if rel == HIST_FILE:
             continue
         names = rel.split(os.sep)
+        if RICH and names == ["x\udce9.py"]:
+            names = ["x.py"]
         if names[-1].endswith(".py"):
             names[-1] = names[-1][:-3]
+        elif names[-1].endswith(".bak"):
+            names[-1] = names[-1][:-4]
         if data is None:
             out.append([names, -2])
         else:
@@ -223,6 +232,16 @@ def run_behaviour(item):
         n = len(cs)
         changes = build_changeset(project, cs, nest, change_mod)
         undo_dir = beh["dir"] == "undo"
+        if not undo_dir:
+            # the change object exists and is previewed; then (spec: PreEdit) a file may get new contents
+            # behind rope's back before the change is performed
+            try:
+                changes.get_description()
+            except Exception:
+                pass
+            if beh.get("pre"):
+                with open(os.path.join(root, rpath(beh["pre"])), "wb") as f:
+                    f.write(content(3))
         if undo_dir:
             project.do(changes)
         hist_before = [list(project.history.undo_list), list(project.history.redo_list)]
@@ -368,7 +387,7 @@ def main(tier):
         return 2
     # vacuity guard: every action of the model was taken
     if res.coverage:
-        needed = ["BuildLeaf", "BeginUndo", "ChooseLeaf", "EndOkDo", "Stop", "JobStart", "FsOp", "FsFail",
+        needed = ["PreEdit", "NoPreEdit", "BuildLeaf", "BeginUndo", "ChooseLeaf", "EndOkDo", "Stop", "JobStart", "FsOp", "FsFail",
                   "FsNatural", "FinishOk", "FinishStopRevert", "FinishStopRevertFails", "RollbackStep"]
         for a in needed:
             if a in res.coverage and res.coverage[a][1] == 0:
